@@ -43,7 +43,8 @@ type TierCfg struct {
 type Check struct {
 	ID          string   `json:"id"`
 	Harness     string   `json:"harness"` // dir under /verif/harness
-	Place       string   `json:"place"`   // dir inside the copy where the harness files go
+	Place       string   `json:"place"`   // dir inside the copy where the harness files go (the package that is built)
+	Common      []string `json:"common"`  // further dirs under /verif/harness, each copied to verifh/<dir> in the copy
 	Level       string   `json:"level"`
 	Rule        string   `json:"rule"`
 	Assumptions []string `json:"assumptions"`
@@ -191,26 +192,31 @@ func build(c *Check, work string) (string, json.RawMessage) {
 		b = append(b, []byte("\nrequire veriflib v0.0.0\n\nreplace veriflib => "+verifDir+"/lib\n")...)
 		os.WriteFile(gm, b, 0o644)
 	}
-	// harness files
-	hdir := filepath.Join(verifDir, "harness", c.Harness)
-	place := filepath.Join(src, c.Place)
-	os.MkdirAll(place, 0o755)
-	ents, err := os.ReadDir(hdir)
-	if err != nil {
-		die(2, "harness: %v", err)
-	}
-	for _, e := range ents {
-		if e.IsDir() {
-			continue
+	// harness files (stored as *.go.txt so that no tool mistakes /verif/harness for Go packages)
+	copyHarness := func(from, to string) {
+		hdir := filepath.Join(verifDir, "harness", from)
+		place := filepath.Join(src, to)
+		os.MkdirAll(place, 0o755)
+		ents, err := os.ReadDir(hdir)
+		if err != nil {
+			die(2, "harness: %v", err)
 		}
-		name := e.Name()
-		b, _ := os.ReadFile(filepath.Join(hdir, name))
-		// harness sources are stored as *.go.txt / *_test.go.txt so that no tool mistakes /verif/harness for a package
-		name = strings.TrimSuffix(name, ".txt")
-		if err := os.WriteFile(filepath.Join(place, "zz_verif_"+name), b, 0o644); err != nil {
-			die(2, "%v", err)
+		for _, e := range ents {
+			if e.IsDir() {
+				continue
+			}
+			name := e.Name()
+			b, _ := os.ReadFile(filepath.Join(hdir, name))
+			name = strings.TrimSuffix(name, ".txt")
+			if err := os.WriteFile(filepath.Join(place, "zz_verif_"+name), b, 0o644); err != nil {
+				die(2, "%v", err)
+			}
 		}
 	}
+	for _, cdir := range c.Common {
+		copyHarness(cdir, filepath.Join("verifh", cdir))
+	}
+	copyHarness(c.Harness, c.Place)
 	bin := filepath.Join(work, "harness.test")
 	args := []string{"test", "-c", "-trimpath", "-vet=off", "-tags", "verif", "-o", bin}
 	if c.Race {
